@@ -6,6 +6,17 @@ use std::panic::{catch_unwind, AssertUnwindSafe};
 
 pub struct Sess {
     pub m: Machine,
+    /// Observations made just before the last `edge` (for the observation-carrying spec lines).
+    pub last_edge: Option<(String, bool, bool, bool, u8, String, String)>,
+    pub last_panicked: bool,
+}
+
+pub fn run_str(m: &Machine) -> &'static str {
+    match m.state() {
+        State::Running => "R",
+        State::Stopped => "S",
+        State::ErrorStopped => "E",
+    }
 }
 
 pub fn hex2(b: u8) -> String {
@@ -126,7 +137,74 @@ pub fn dump(m: &Machine) -> String {
 
 impl Sess {
     pub fn new() -> Self {
-        Sess { m: Machine::new(MachineConfig::default()) }
+        Sess { m: Machine::new(MachineConfig::default()), last_edge: None, last_panicked: false }
+    }
+    /// Apply a line; returns the op line to record (observation-carrying spec lines are completed
+    /// with what is observed on the real machine now) and the implementation's answer.
+    pub fn apply2(&mut self, line: &str) -> (String, String) {
+        use emulator_2a_lib::machine::RegisterNumber as RN;
+        let head = line.split(' ').next().unwrap_or("");
+        match head {
+            "edge" => {
+                let st = self.m.verif_state();
+                let (reset, load) = {
+                    let sg = self.m.signals();
+                    let reset = sg.mac1() && sg.mac2();
+                    (reset, !reset && sg.mac0() && sg.mac2())
+                };
+                let _ = reset;
+                self.last_edge = Some((
+                    run_str(&self.m).to_string(),
+                    st.pending_wait_for_memory,
+                    st.pending_register_write.is_some(),
+                    load,
+                    st.last_bus_read,
+                    ss_str(self.m.stacksize()).to_string(),
+                    ps_str(self.m.programsize()),
+                ));
+                let r = self.apply(line);
+                (line.to_string(), r)
+            }
+            "spec.run" => {
+                let sp = *self.m.registers().get(RN::R5);
+                let pc = *self.m.registers().get(RN::R3);
+                match &self.last_edge {
+                    Some((pre, wait, wrote, load, lb, ss, ps)) => (
+                        format!("spec.run {} {} {} {} {} {} {} {} {}", pre, *wait as u8, *wrote as u8, sp, pc, ss, ps, *load as u8, lb),
+                        run_str(&self.m).to_string(),
+                    ),
+                    None => (line.to_string(), "bad-op".into()),
+                }
+            }
+            "spec.valid" => {
+                let sp = *self.m.registers().get(RN::R5);
+                let pc = *self.m.registers().get(RN::R3);
+                (
+                    format!("spec.valid {} {} {} {} {}", run_str(&self.m), sp, pc, ss_str(self.m.stacksize()), ps_str(self.m.programsize())),
+                    "ok".into(),
+                )
+            }
+            "spec.absorb" => {
+                if line == "spec.absorb edges" {
+                    let before = self.m.clone();
+                    for _ in 0..20 {
+                        self.m.raw_mut().trigger_clock_edge();
+                    }
+                    self.m.trigger_key_clock();
+                    let same = self.m == before;
+                    self.m = before;
+                    (line.to_string(), if same { "same".into() } else { "changed".into() })
+                } else {
+                    (line.to_string(), run_str(&self.m).to_string())
+                }
+            }
+            "spec.nopanic" => (line.to_string(), if self.last_panicked { "panic".into() } else { "ok".into() }),
+            _ => {
+                let r = self.apply(line);
+                self.last_panicked = r == "panic";
+                (line.to_string(), r)
+            }
+        }
     }
     /// Apply one protocol line to the real machine; returns the result line.
     pub fn apply(&mut self, line: &str) -> String {
@@ -324,6 +402,8 @@ impl Sess {
                     hex2(*bus.board().digital_input1())
                 )
             }
+            // observation-carrying spec lines: the implementation's answer is part of a replay file
+            // only through the ops that precede it; when replayed they are re-observed by the generator
             ["d"] => dump(m),
             ["ram"] => m.bus().memory().iter().map(|b| hex2(*b)).collect(),
             ["done"] => b01(m.is_instruction_done()).to_string(),
